@@ -15,6 +15,7 @@ pub mod c12;
 pub mod c13;
 pub mod c14;
 pub mod c15;
+pub mod c16;
 
 pub fn dispatch(prop: &str, cfg: &Cfg) -> Option<(Log, Meta)> {
   Some(match prop {
@@ -31,6 +32,7 @@ pub fn dispatch(prop: &str, cfg: &Cfg) -> Option<(Log, Meta)> {
     "C13" => c13::run(cfg),
     "C14" => c14::run(cfg),
     "C15" => c15::run(cfg),
+    "C16" => c16::run(cfg),
     _ => return None,
   })
 }
